@@ -50,6 +50,7 @@ def gen(tier, rng):
     r = rng.fork("node")
     yield nodegen.long_session_script(r, "node-window-0", 260, drop_at=(), replay_age=(2, 3))
     yield nodegen.long_session_script(r, "node-window-stale-attempt", 90, drop_at=(), replay_age=(2, 3), stale_ping_at=(20, 70))
+    yield nodegen.star_session_script(r, "node-window-star", 250)        # two sessions per node: every session ticks in every round
     if tier == "thorough":
         for i in range(3):
             yield nodegen.long_session_script(r, "node-window-%d" % (i + 1), 500, drop_at=(r.range(100, 400),), replay_age=(2, r.range(3, 6)))
